@@ -67,24 +67,36 @@ TRANSLATORS = {"v2/*_blob.cpp": _translate}
 # A divergence here on the unchanged tree means the translator's mapping is wrong (or the C++
 # changed in a way the equality proofs would also reject).
 
-def gen_stream(ctx):
+def gen_stream(ctx, family="v2"):
     import random
     import runner
     from props import _codecs as cd
-    rng = random.Random(ctx.seed * 7368787 + 41)
+    rng = random.Random(ctx.seed * 7368787 + (41 if family == "v2" else 43))
     hist = {}
     g = cd.Gen(rng, hist)
     per = 25 if ctx.tier == "quick" else 120
     vals = []
-    for k in cd.KINDS_V2:
+    kinds = cd.KINDS_V2 if family == "v2" else cd.KINDS_V1
+    tag = "gen" if family == "v2" else "gen1"
+    encc, decc = ("genc", "gdec") if family == "v2" else ("g1enc", "g1dec")
+    for k in kinds:
         for _ in range(per):
             vals.append((k, g.value(k)))
     # label lengths around the 255 limit (the encoders' only rejection)
     for L in (0, 1, 254, 255, 256, 300):
-        vals.append(("v2.cues", g.v2_cues([L, 2])))
-        vals.append(("v2.loops", g.v2_loops([1, L])))
+        if family == "v2":
+            vals.append(("v2.cues", g.v2_cues([L, 2])))
+            vals.append(("v2.loops", g.v2_loops([1, L])))
+        else:
+            vals.append(("v1.cues", g.v1_cues([L, 2, 1, 1, 1, 1, 1, 1])))
+            vals.append(("v1.loops", g.v1_loops([1, L, 3, 1, 1, 1, 1, 1])))
+    if family == "v1":
+        # slot counts around 8, the encoders' rejections of grids (1 marker, unsorted, wide gap) come from g.value
+        for n in (0, 7, 9, 12):
+            vals.append(("v1.cues", g.v1_cues([2] * n)))
+            vals.append(("v1.loops", g.v1_loops([2] * n)))
     enc_h = ["enc %s %s" % (k, cd.enc_text(k, v)) for k, v in vals]
-    enc_m = ["genc %s %s" % (k, cd.enc_text(k, v)) for k, v in vals]
+    enc_m = ["%s %s %s" % (encc, k, cd.enc_text(k, v)) for k, v in vals]
     ho = [o for (outs, _) in runner.run_harness(runner.shard(enc_h, NCPU), stateless=True, watchdog=20) for o in outs]
     mo = [o for outs in runner.run_model(runner.shard(enc_m, NCPU)) for o in outs]
     div = []
@@ -111,13 +123,13 @@ def gen_stream(ctx):
             dec.append((k, b))
         for _ in range(3 if ctx.tier == "quick" else 20):
             dec.append((k, cd.mutate(pl, rng)))
-    for k in cd.KINDS_V2:
+    for k in kinds:
         for b in cd.boundary_payloads(k, rng):
             dec.append((k, b))
         for n in range(0, 48):
             dec.append((k, bytes(rng.getrandbits(8) for _ in range(n))))
     dh = ["dec %s %s" % (k, cd.hexb(b)) for k, b in dec]
-    dm = ["gdec %s %s" % (k, cd.hexb(b)) for k, b in dec]
+    dm = ["%s %s %s" % (decc, k, cd.hexb(b)) for k, b in dec]
     ho = [o for (outs, _) in runner.run_harness(runner.shard(dh, NCPU), stateless=True, watchdog=10) for o in outs]
     mo = [o for outs in runner.run_model(runner.shard(dm, NCPU)) for o in outs]
     cls = {}
@@ -127,27 +139,28 @@ def gen_stream(ctx):
         if h != m:
             div.append({"input": l[:300], "impl": h[:200], "model": "(regenerated) " + m[:200]})
     return {"evaluations": len(enc_h) + len(dh), "divergences": div,
-            "histograms": dict({"gen:enc_ok": n_enc_ok, "gen:enc_throw": n_enc_throw, "gen:dec_inputs": len(dh)},
-                               **{"gen:dec_outcome:" + k: v for k, v in cls.items()})}
+            "histograms": dict({tag + ":enc_ok": n_enc_ok, tag + ":enc_throw": n_enc_throw, tag + ":dec_inputs": len(dh)},
+                               **{tag + ":dec_outcome:" + k: v for k, v in cls.items()})}
 
 
 def wrap_tie(tie):
     """tie' = tie + the stream above (its divergences are divergences of the property's tie)."""
     def tie2(ctx):
         res = tie(ctx)
-        try:
-            g = gen_stream(ctx)
-        except Exception as e:            # e.g. the regenerated model no longer compiles into the driver
-            import traceback
-            g = {"evaluations": 0, "divergences": [{"input": "gen-stream", "impl": "-", "model": "crash: %r" % (e,)}],
-                 "histograms": {"gen:crash": 1}, "crash": traceback.format_exc()}
-        res["evaluations"] = int(res.get("evaluations", 0)) + g["evaluations"]
-        res.setdefault("histograms", {}).update(g["histograms"])
-        if g["divergences"]:
-            res["ok"] = False
-            res["divergences"] = list(res.get("divergences", [])) + g["divergences"][:10]
+        for family in ("v2", "v1"):
+            try:
+                g = gen_stream(ctx, family)
+            except Exception as e:            # e.g. the regenerated model no longer compiles into the driver
+                import traceback
+                g = {"evaluations": 0, "divergences": [{"input": "gen-stream " + family, "impl": "-", "model": "crash: %r" % (e,)}],
+                     "histograms": {"gen:crash:" + family: 1}, "crash": traceback.format_exc()}
+            res["evaluations"] = int(res.get("evaluations", 0)) + g["evaluations"]
+            res.setdefault("histograms", {}).update(g["histograms"])
+            if g["divergences"]:
+                res["ok"] = False
+                res["divergences"] = list(res.get("divergences", [])) + g["divergences"][:10]
         res["rule"] = (res.get("rule", "") + "; plus the model regenerated from the C++ sources (gdec / genc) against the "
-                       "real library on generated 2.x values, their truncations / corruptions / mutations, boundary "
+                       "real library on generated 2.x and 1.x (g1dec / g1enc) values, their truncations / corruptions / mutations, boundary "
                        "counts and random short inputs (outcome text must be identical)")
         return res
     return tie2
